@@ -1,3 +1,4 @@
+import re
 
 
 from pydbml.classes import StickyNote
@@ -11,5 +12,7 @@ def render_sticky_note(model: StickyNote) -> str:
     text = quote_string(model.text)
 
     text = indent(text, '    ')
-    result = f'Note {model.name} {{\n{text}\n}}'
+    # a name that is not a single word only parses back when quoted
+    name = model.name if re.fullmatch(r'\w+', str(model.name)) else f'"{model.name}"'
+    result = f'Note {name} {{\n{text}\n}}'
     return result
